@@ -89,6 +89,9 @@ pub mod test_utils;
 pub mod timestamp;
 pub mod topic;
 pub mod traits;
+#[cfg(p2panda_p2panda_verif)]
+#[doc(hidden)]
+pub mod verif;
 
 pub use cursor::Cursor;
 pub use extensions::{Extension, Extensions};
